@@ -524,7 +524,7 @@ theorem mGcLoop_spec (ext : Nat → Nat) : ∀ (f : Nat) (work : List Int) (m m'
 
 theorem mUnusedOf_spec : ∀ (rs : List Int) (m : MddMgr) (r : List Int) (m1 : MddMgr),
     mUnusedOf rs m = (.ok r, m1) →
-    m1 = m ∧ ∀ y, y ∈ rs → m.ref[y.natAbs]? = some 0 → y ∈ r := by
+    m1 = m ∧ ∀ y, y ∈ rs → m.ref[y.natAbs]? = some 0 → ((y.natAbs : Nat) : Int) ∈ r := by
   intro rs
   induction rs with
   | nil =>
@@ -608,12 +608,12 @@ theorem mddGc_spec (m : MddMgr) (ext : Nat → Nat) (h : MInv m) (hx : RefExact 
           intro x n hn h0
           have hx2 : 2 ≤ x := h.wf.ge_two _ _ hn
           have hin : ((x : Nat) : Int) ∈ unused := by
-            apply hall
-            · rw [List.mem_map]
+            have := hall ((x : Nat) : Int) (by
+              rw [List.mem_map]
               refine ⟨x, ?_, rfl⟩
               rw [TreeMap.mem_keys, TreeMap.mem_iff_contains]
-              exact h.refDom _ _ hn
-            · simpa using h0
+              exact h.refDom _ _ hn) (by simpa using h0)
+            simpa using this
           have hne1 : ((x : Nat) : Int) ≠ 1 := by omega
           exact (List.mem_erase_of_ne hne1).mpr hin) x n hn
         have hdom := (natmap_contains_iff m2.ref x).mp (G.core.refDom x n hn)
